@@ -244,7 +244,7 @@ func (g *docGen) line(budget *int) {
 			}
 		}
 	}
-	if (!g.wonly || !open) && g.rng.Chance(1, 10) {
+	if g.rng.Chance(1, 10) { // (also after `{`: inside W since the comment-after-brace extension)
 		g.sb.WriteString(g.ws() + g.comment())
 	}
 	g.nl()
